@@ -140,8 +140,8 @@ func (s *server) HandleUpgrade(ctx *types.HttpContext) {
 			s.emitAbortRequest(ctx, BAD_REQUEST, map[string]any{"name": "UPGRADE_FAILURE"})
 			server_log.Debug("websocket error before upgrade: %s", err.Error())
 		} else {
-			conn.SetReadLimit(s.Opts().MaxHttpBufferSize())
 			wsc.Conn = conn
+			wsc.SetReadLimit(s.Opts().MaxHttpBufferSize())
 			s.onWebSocket(ctx, wsc)
 		}
 	}
